@@ -16,15 +16,17 @@ import (
 	"gonum.org/v1/gonum/graph/iterator"
 	"gonum.org/v1/gonum/graph/multi"
 	"gonum.org/v1/gonum/graph/simple"
+	"gonum.org/v1/gonum/internal/verif/vlib"
 )
 
-// spec is a graph on the node indices 0..n-1. w[i][j] == 0 means "no edge";
-// undirected specs are symmetric. There are no self loops (the simple
-// containers refuse them).
+// spec is a graph on the node indices 0..n-1: e[i][j] says whether the edge
+// exists, w[i][j] is its weight (which may be 0); undirected specs are
+// symmetric. There are no self loops (the simple containers refuse them).
 type spec struct {
 	n        int
 	directed bool
 	weighted bool
+	e        [5][5]bool
 	w        [5][5]float64
 	// self is the weight every node has to itself (the self argument of the
 	// weighted simple containers, read by the modularity code as A_ii); the
@@ -32,7 +34,27 @@ type spec struct {
 	self float64
 }
 
-func (sp *spec) has(i, j int) bool { return sp.w[i][j] != 0 }
+func (sp *spec) has(i, j int) bool { return sp.e[i][j] }
+
+// set adds the edge i->j (and j->i for undirected specs) with weight w.
+func (sp *spec) set(i, j int, w float64) {
+	sp.e[i][j], sp.w[i][j] = true, w
+	if !sp.directed {
+		sp.e[j][i], sp.w[j][i] = true, w
+	}
+}
+
+// totalWeight is the sum of the absolute weights the modularity code sees
+// (every direction of every edge, self weights included).
+func (sp *spec) totalWeight() float64 {
+	var t float64
+	for i := 0; i < sp.n; i++ {
+		for j := 0; j < sp.n; j++ {
+			t += math.Abs(sp.a(i, j))
+		}
+	}
+	return t
+}
 
 // a returns the adjacency weight used by the definitions: the edge weight for
 // weighted graphs, 1 for an edge of an unweighted graph.
@@ -40,7 +62,7 @@ func (sp *spec) a(i, j int) float64 {
 	if i == j {
 		return sp.self
 	}
-	if sp.w[i][j] == 0 {
+	if !sp.e[i][j] {
 		return 0
 	}
 	if !sp.weighted {
@@ -115,32 +137,57 @@ func ipow(b, e int) int {
 	return r
 }
 
+// Weight alphabets: digit 0 of a pair is "no edge", digit d > 0 the weight
+// alpha[d-1]. Unweighted graphs have the single letter 1.
+var (
+	alphaUnit = []float64{1}
+	alpha12   = []float64{1, 2}    // the default of the weighted spaces
+	alpha012  = []float64{0, 1, 2} // with zero-weight edges
+	alpha01   = []float64{0, 1}
+)
+
+func alphaFor(weighted bool) []float64 {
+	if weighted {
+		return alpha12
+	}
+	return alphaUnit
+}
+
 // nGraphs is the number of graphs on n nodes: 2^pairs unweighted, 3^pairs
 // with weights in {absent,1,2}.
 func nGraphs(n int, directed, weighted bool) int {
-	r := 2
-	if weighted {
-		r = 3
-	}
-	return ipow(r, len(pairs(n, directed)))
+	return ipow(len(alphaFor(weighted))+1, len(pairs(n, directed)))
 }
 
 // mkSpec decodes graph number idx (digits base 2 or 3 over pairs()).
 func mkSpec(n int, directed, weighted bool, idx int) *spec {
+	return mkSpecAlpha(n, directed, weighted, alphaFor(weighted), idx)
+}
+
+func mkSpecAlpha(n int, directed, weighted bool, alpha []float64, idx int) *spec {
 	sp := &spec{n: n, directed: directed, weighted: weighted}
-	r := 2
-	if weighted {
-		r = 3
-	}
+	r := len(alpha) + 1
 	for _, p := range pairs(n, directed) {
 		d := idx % r
 		idx /= r
-		sp.w[p[0]][p[1]] = float64(d)
-		if !directed {
-			sp.w[p[1]][p[0]] = float64(d)
+		if d > 0 {
+			sp.set(p[0], p[1], alpha[d-1])
 		}
 	}
 	return sp
+}
+
+// zeroOut sets the weight of every edge leaving node z (undirected: every
+// edge at z) to zero; the edges stay.
+func (sp *spec) zeroOut(z int) {
+	for j := 0; j < sp.n; j++ {
+		if sp.e[z][j] {
+			sp.w[z][j] = 0
+			if !sp.directed {
+				sp.w[j][z] = 0
+			}
+		}
+	}
 }
 
 // ID maps.
@@ -469,6 +516,30 @@ type graphSpace struct {
 	rotate             bool // one rotating ID map per graph even when the space is complete
 	noMulti            bool // simple containers only (routines documented for simple graphs)
 	self               float64
+	alpha              []float64 // weight alphabet of a weighted space (nil: {1,2})
+	zeroOut            bool      // the out-weights of node idx mod n are set to zero
+	large              bool      // enumerated by the "-large" twin of the group (second phase)
+	sub                bool      // PageRank: a rotating subset of the damping x tolerance grid
+}
+
+func (s graphSpace) alphabet() []float64 {
+	if s.alpha != nil {
+		return s.alpha
+	}
+	return alphaFor(s.weighted)
+}
+
+func (s graphSpace) count() int {
+	return ipow(len(s.alphabet())+1, len(pairs(s.n, s.directed)))
+}
+
+func (s graphSpace) spec(idx int) *spec {
+	sp := mkSpecAlpha(s.n, s.directed, s.weighted, s.alphabet(), idx)
+	sp.self = s.self
+	if s.zeroOut && s.n > 0 {
+		sp.zeroOut(idx % s.n)
+	}
+	return sp
 }
 
 func (s graphSpace) name() string {
@@ -483,6 +554,15 @@ func (s graphSpace) name() string {
 	if s.self != 0 {
 		w += fmt.Sprintf("s%v", s.self)
 	}
+	if s.alpha != nil {
+		w += "a"
+		for _, x := range s.alpha {
+			w += fmt.Sprint(x)
+		}
+	}
+	if s.zeroOut {
+		w += "o"
+	}
 	return fmt.Sprintf("%s%s%d", k, w, s.n)
 }
 
@@ -492,7 +572,7 @@ func (s graphSpace) name() string {
 // containers); otherwise a single combination that rotates with the graph
 // index.
 func forGraphs(s graphSpace, all bool, f func(key string, mk func() *built)) {
-	total := nGraphs(s.n, s.directed, s.weighted)
+	total := s.count()
 	stride := s.stride
 	if stride == 0 {
 		stride = 1
@@ -514,11 +594,28 @@ func forGraphs(s graphSpace, all bool, f func(key string, mk func() *built)) {
 				cont = contSimple
 			}
 			key := fmt.Sprintf("%s#%d %s %s %s", s.name(), idx, idMapNames[idKind], orderNames[order], contNames[cont])
-			f(key, func() *built {
-				sp := mkSpec(s.n, s.directed, s.weighted, idx)
-				sp.self = s.self
-				return build(sp, idKind, order, cont)
-			})
+			f(key, func() *built { return build(s.spec(idx), idKind, order, cont) })
 		}
 	}
+}
+
+// Every group is split in two: the small, completely enumerated spaces come
+// first for all groups ("core"), the big spaces afterwards ("<group>-large"),
+// so that a run that is cut by the deadline on a loaded machine has still
+// exercised every routine.
+func eachSpace(g *vlib.G, large bool, spaces []graphSpace, f func(s graphSpace, key string, mk func() *built)) {
+	for _, s := range spaces {
+		if s.large != large {
+			continue
+		}
+		s := s
+		forGraphs(s, s.stride <= 1 && !s.rotate, func(key string, mk func() *built) { f(s, key, mk) })
+		if g.Stopped() {
+			return
+		}
+	}
+}
+
+func phases(gen func(g *vlib.G, large bool)) (core, large func(g *vlib.G)) {
+	return func(g *vlib.G) { gen(g, false) }, func(g *vlib.G) { gen(g, true) }
 }
